@@ -19,7 +19,7 @@
    mapping by its content. *)
 From Coq Require Import NArith List Bool.
 Require Import SDS.Model.Mach SDS.Model.Bits SDS.Model.Raw SDS.Model.IntVec SDS.Model.Mapped.
-Require Import SDS.Proofs.BitsProof SDS.Proofs.MappedProof.
+Require Import SDS.Spec.Utf8 SDS.Proofs.BitsProof SDS.Proofs.MappedProof SDS.Proofs.Utf8Proof.
 Import ListNotations.
 Open Scope N_scope.
 
@@ -95,6 +95,13 @@ Theorem C13_scope_note_wrapping_length :
   exists v, ms_new Release 1 [2 ^ 64 - 1] 0 = VOk v /\ ms_len v = 2 ^ 64 - 1 /\ ms_items1 v = OOB SITE_MAP_WORD.
 Proof. split; [reflexivity|]. eexists. split; [reflexivity|]. split; reflexivity. Qed.
 Print Assumptions C13_scope_note_wrapping_length.
+
+(* The model's reading of str::from_utf8 (the byte-range table 3-7 of the Unicode standard) accepts exactly the
+   byte strings that decode, lead byte + 6-bit continuation bytes, to scalar values in shortest form
+   (<= 0x10FFFF, no surrogates): the definition of Spec/Utf8.v, written independently. *)
+Theorem C13_utf8_table_is_scalar_decoding : forall l, mp_utf8_valid l = sp_utf8 l.
+Proof. exact utf8_agree. Qed.
+Print Assumptions C13_utf8_table_is_scalar_decoding.
 
 (* ---- non-vacuity: a file of one padding element and eight structures, the last one empty ---- *)
 
